@@ -713,6 +713,23 @@ type c10DCase struct {
 	// Missing: which optional value the SECOND object lacks: 0 none, 1 getlastmodified absent, 2 getetag absent,
 	// 3 getlastmodified reported under 404, 4 getetag reported under 404. The other values must still arrive.
 	Missing int `json:"missing,omitempty"`
+	// Esc 1: hrefs escaped otherwise than Go's net/url would write them (lower-case hex digits, unreserved
+	// characters such as ~ and @ escaped too): the same paths
+	Esc int `json:"href_escaping,omitempty"`
+}
+
+// altEscapeHref escapes every byte outside [A-Za-z0-9/._-] with lower-case hex digits.
+func altEscapeHref(p string) string {
+	var sb strings.Builder
+	for i := 0; i < len(p); i++ {
+		b := p[i]
+		if b >= 'a' && b <= 'z' || b >= 'A' && b <= 'Z' || b >= '0' && b <= '9' || b == '/' || b == '.' || b == '_' || b == '-' {
+			sb.WriteByte(b)
+		} else {
+			fmt.Fprintf(&sb, "%%%02x", b)
+		}
+	}
+	return sb.String()
 }
 
 func httpDate(t time.Time) string { return t.UTC().Format(http.TimeFormat) }
@@ -790,7 +807,11 @@ func c10JudgeD(c c10DCase, sets [][]docFeature) (clause, detail string) {
 					missing = indep.E(indep.DAV, "getetag")
 				}
 			}
-			r := indep.E(indep.DAV, "response", indep.E(indep.DAV, "href").T(indep.EscapeHref(o.path)))
+			hrefText := indep.EscapeHref(o.path)
+			if c.Esc == 1 {
+				hrefText = altEscapeHref(o.path)
+			}
+			r := indep.E(indep.DAV, "response", indep.E(indep.DAV, "href").T(hrefText))
 			ps := propstatsOrd(c.Split, props, c.Extras, c.BadFirst)
 			if missing != nil && c.Missing >= 3 {
 				bad := indep.E(indep.DAV, "propstat", indep.E(indep.DAV, "prop", missing), indep.E(indep.DAV, "status").T("HTTP/1.1 404 Not Found"))
@@ -817,7 +838,11 @@ func c10JudgeD(c c10DCase, sets [][]docFeature) (clause, detail string) {
 		home := indep.E(indep.DAV, "response", indep.E(indep.DAV, "href").T("/u/c/"))
 		home.Add(propstats(false, []*indep.El{indep.E(indep.DAV, "resourcetype", indep.E(indep.DAV, "collection"))}, false)...)
 		ms.Add(home)
-		r := indep.E(indep.DAV, "response", indep.E(indep.DAV, "href").T(indep.EscapeHref("/u/c/k é/")))
+		collHref := indep.EscapeHref("/u/c/k é/")
+		if c.Esc == 1 {
+			collHref = altEscapeHref("/u/c/k é/")
+		}
+		r := indep.E(indep.DAV, "response", indep.E(indep.DAV, "href").T(collHref))
 		r.Add(propstatsOrd(c.Split, props, c.Extras, c.BadFirst)...)
 		ms.Add(r)
 	}
@@ -1077,6 +1102,9 @@ func init() {
 								if ex {
 									dcases = append(dcases, c10DCase{Kind: kind, Call: call, Style: st, Split: split, Extras: ex, Feats: f, BadFirst: true})
 								}
+								if f == si && !ex {
+									dcases = append(dcases, c10DCase{Kind: kind, Call: call, Style: st, Split: split, Extras: ex, Feats: f, Esc: 1})
+								}
 								if call != "find" && (f == si) {
 									// the second object lacks one optional value (absent / reported under 404, before or after)
 									for m := 1; m <= 4; m++ {
@@ -1103,7 +1131,7 @@ func init() {
 				s.Sample(c)
 			}
 			if clause != "" {
-				s.Violate(engine.Violation{Sig: fmt.Sprintf("C10/%s/%s.%s/ns%d.split=%v.extras=%v.badfirst=%v", clause, c.Kind, c.Call, c.Style.NS, c.Split, c.Extras, c.BadFirst) + map[bool]string{true: fmt.Sprintf(".missing=%d", c.Missing)}[c.Missing != 0], Clause: clause, Index: base + int64(i), Kind: "C10-D", Case: c, Expected: "client returns the values the document holds", Observed: detail})
+				s.Violate(engine.Violation{Sig: fmt.Sprintf("C10/%s/%s.%s/ns%d.split=%v.extras=%v.badfirst=%v", clause, c.Kind, c.Call, c.Style.NS, c.Split, c.Extras, c.BadFirst) + map[bool]string{true: fmt.Sprintf(".missing=%d", c.Missing)}[c.Missing != 0] + map[bool]string{true: ".href-escaping=alt"}[c.Esc != 0], Clause: clause, Index: base + int64(i), Kind: "C10-D", Case: c, Expected: "client returns the values the document holds", Observed: detail})
 			}
 		})
 	})
